@@ -357,3 +357,98 @@ Section LazyAttr.
     cbn [iterM]. unfold bind at 1. rewrite Hx. reflexivity.
   Qed.
 End LazyAttr.
+
+(* ================= run level: a failing stanza / deferred statement makes the RUN fail ================= *)
+Section RunStrict.
+  Context {rx : Type}.
+  Variable t : tree.
+  Variable fl : file.
+  Variable cfg : config.
+  Variable glob : globals.
+  Variable regexes : list rx.
+  Variable find : rx -> str -> option (list (option (N * N))).
+  Variable call : ident -> graph -> list value -> res (value * graph).
+  Notation exec_file' := (exec_file t fl cfg glob regexes find call).
+  Notation exec_stanza' := (exec_stanza t fl cfg glob regexes find call).
+
+  Lemma exec_file_app fuel st1 : forall ms1 st2 ms2 s p, length st1 = length ms1 ->
+    exec_file' fuel (st1 ++ st2) (ms1 ++ ms2) s p = bind (exec_file' fuel st1 ms1) (fun _ => exec_file' fuel st2 ms2) s p.
+  Proof.
+    induction st1 as [|st st1 IH]; intros [|m ms1] st2 ms2 s p H; cbn [length] in H; try discriminate.
+    - reflexivity.
+    - cbn [app exec_file]. unfold bind at 1 2 3. destruct (iterM (exec_stanza' fuel st) m s p) as [[[u s1] p1]| | |]; try reflexivity.
+      apply IH. congruence.
+  Qed.
+
+  (* stanzas stpre ran on their matches, stanza st ran on the matches mpre, and fails on the match q: the file fails *)
+  Lemma exec_file_stanza_fails fuel stpre mspre st sts mpre q mpost ms s0 p0 sA pA sB pB e :
+    length stpre = length mspre ->
+    exec_file' fuel stpre mspre s0 p0 = Ok (tt, sA, pA) ->
+    iterM (exec_stanza' fuel st) mpre sA pA = Ok (tt, sB, pB) ->
+    exec_stanza' fuel st q sB pB = Err e ->
+    exec_file' fuel (stpre ++ st :: sts) (mspre ++ (mpre ++ q :: mpost) :: ms) s0 p0 = Err e.
+  Proof.
+    intros Hl HA HB Hq. rewrite exec_file_app by exact Hl. unfold bind at 1. rewrite HA. cbn [exec_file].
+    unfold bind at 1. rewrite iterM_app. unfold bind at 1. rewrite HB. cbn [iterM]. unfold bind at 1. rewrite Hq. reflexivity.
+  Qed.
+End RunStrict.
+
+Lemma run_strict_fails {rx} t fl cfg supplied budget (regexes : list rx) find call fuel matches g0 glob e :
+  check_globals (f_globals fl) (globals_nested supplied) = Ok glob ->
+  exec_file t fl cfg glob regexes find call fuel (f_stanzas fl) matches (sinit g0) (polls0 budget) = Err e ->
+  run_strict t fl cfg supplied budget regexes find call fuel matches g0 = Err e.
+Proof. intros Hg He. unfold run_strict. rewrite Hg, He. reflexivity. Qed.
+
+(* lazy: the execution phase succeeded (state s); the evaluation phase fails *)
+Lemma run_lazy_eval_fails {rx} t fl cfg supplied budget (regexes : list rx) find call fuel matches g0 glob s p e :
+  check_globals (f_globals fl) (globals_nested supplied) = Ok glob ->
+  iterM (fun pm : N * qmatch =>
+           match nth_error (f_stanzas fl) (N.to_nat (fst pm)) with
+           | Some st => lexec_stanza t fl cfg glob regexes find call fuel st (snd pm)
+           | None => panic P_stanza_index
+           end) matches (linit g0) (polls0 budget) = Ok (tt, s, p) ->
+  evaluate_phase t fl call (fuel + default_eval_fuel) s p = Err e ->
+  run_lazy t fl cfg supplied budget regexes find call fuel matches g0 = Err e.
+Proof. intros Hg Hx He. unfold run_lazy. rewrite Hg. unfold lexec_file. unfold bind at 1. rewrite Hx, He. reflexivity. Qed.
+
+(* the environment Stanza::execute gives to the top-level statement x of stanza st on match m (n = first full-match
+   node), and the stanza cut down to the statements before x *)
+Definition top_le (st : stanza) (m : qmatch) (n : N) (x : stmt) : lenv :=
+  {| le_match := m; le_full := st_full_stanza_idx st; le_caps := [];
+     le_ctx := {| sc_stmt := stmt_loc x; sc_stanza := st_start st; sc_node := n |} |}.
+Definition stanza_prefix (st : stanza) (spre : list stmt) : stanza :=
+  {| st_stmts := spre; st_full_stanza_idx := st_full_stanza_idx st; st_full_file_idx := st_full_file_idx st; st_start := st_start st |}.
+
+Lemma strict_run_stmt_fails {rx} t fl cfg supplied budget (regexes : list rx) find call fuel matches g0 glob
+    stpre mspre st sts mpre q mpost ms sA pA sB pB n rest spre x spost s p e :
+  check_globals (f_globals fl) (globals_nested supplied) = Ok glob ->
+  f_stanzas fl = stpre ++ st :: sts -> matches = mspre ++ (mpre ++ q :: mpost) :: ms -> length stpre = length mspre ->
+  exec_file t fl cfg glob regexes find call fuel stpre mspre (sinit g0) (polls0 budget) = Ok (tt, sA, pA) ->
+  iterM (exec_stanza t fl cfg glob regexes find call fuel st) mpre sA pA = Ok (tt, sB, pB) ->
+  nodes_for_capture q (st_full_stanza_idx st) = n :: rest ->
+  st_stmts st = spre ++ x :: spost ->
+  exec_stanza t fl cfg glob regexes find call fuel (stanza_prefix st spre) q sB pB = Ok (tt, s, p) ->
+  exec_stmt t fl cfg glob regexes find call fuel (top_le st q n x) x s p = Err e ->
+  exists e', run_strict t fl cfg supplied budget regexes find call fuel matches g0 = Err e' /\ root_cause e' = root_cause e.
+Proof.
+  intros Hg Hf Hm Hl HA HB Hn Hst Hpre Hx.
+  destruct (exec_stanza_stmt_fails t fl cfg glob regexes find call fuel st q n rest spre x spost sB pB s p e Hn Hst Hpre Hx) as (e' & He' & Hr).
+  exists e'. split; [|exact Hr]. apply (run_strict_fails t fl cfg supplied budget regexes find call fuel matches g0 glob e' Hg).
+  rewrite Hf, Hm. eapply exec_file_stanza_fails; eauto.
+Qed.
+
+Lemma lazy_run_attr_stmt_fails {rx} t fl cfg supplied budget (regexes : list rx) find call fuel matches g0 glob s p s1 p1 apre x apost s2 p2 e :
+  check_globals (f_globals fl) (globals_nested supplied) = Ok glob ->
+  iterM (fun pm : N * qmatch =>
+           match nth_error (f_stanzas fl) (N.to_nat (fst pm)) with
+           | Some st => lexec_stanza t fl cfg glob regexes find call fuel st (snd pm)
+           | None => panic P_stanza_index
+           end) matches (linit g0) (polls0 budget) = Ok (tt, s, p) ->
+  iterM (eval_lstmt t fl call (fuel + default_eval_fuel)) (l_edges s) s p = Ok (tt, s1, p1) ->
+  l_attrs s = apre ++ x :: apost ->
+  iterM (eval_lstmt t fl call (fuel + default_eval_fuel)) apre s1 p1 = Ok (tt, s2, p2) ->
+  eval_lstmt t fl call (fuel + default_eval_fuel) x s2 p2 = Err e ->
+  run_lazy t fl cfg supplied budget regexes find call fuel matches g0 = Err e.
+Proof.
+  intros Hg Hx He Ha Hpre Hs. eapply run_lazy_eval_fails; eauto. eapply evaluate_phase_attr_fails; eauto.
+Qed.
